@@ -1,6 +1,7 @@
 import Dbus.Proofs.Bus.Limits
 import Dbus.Proofs.Bus.Names
 import Dbus.Props.C03
+import Dbus.Proofs.Bus.GenericA
 /-
   C13 — configured resource limits are never exceeded.
 -/
@@ -22,6 +23,27 @@ theorem limits_never_exceeded (tbl : List IfaceRow) (l : Limits) (p : Policy) (e
     (∀ uid, nCompletedFor b uid ≤ b.limits.maxPerUser) := by
   intro b
   have hi : LimitsInv b := limitsInv_run tbl l p evs
+  exact ⟨fun x hx => ⟨(hi.conns x hx).1, (hi.conns x hx).2.1⟩, hi.pending, hi.completed, hi.per_user⟩
+
+/-- **… also with service activation and with time.**  The same bounds hold in every state the bus can
+    reach when messages are held for services being started, programs end or fail, start timeouts
+    and reply timeouts run out (`runT`: the activation layer and the clock layer on top of the core):
+    the layers change the core's state only through the primitives the induction covers. -/
+theorem limits_never_exceeded_with_activation_and_time (tbl : List IfaceRow) (l : Limits) (p : Policy) (t0 : TBus)
+    (h0 : t0.a.core = { limits := l, policy := p }) (evs : List TEv) :
+    let b := (runT tbl t0 evs).1.a.core
+    (∀ x ∈ b.conns, x.rules.length ≤ b.limits.maxRules ∧ x.owned.length ≤ max 1 b.limits.maxNames) ∧
+    (∀ c, callsOf b.pending c ≤ b.limits.maxReplies) ∧
+    nCompleted b ≤ b.limits.maxCompleted ∧
+    (∀ uid, nCompletedFor b uid ≤ b.limits.maxPerUser) := by
+  intro b
+  have hi : LimitsInv b := invariant_of_leaves_T limits_leaves tbl evs t0 (by
+    rw [h0]
+    exact { ids := List.nodup_nil
+            conns := fun x hx => by cases hx
+            pending := fun _ => Nat.zero_le _
+            completed := Nat.zero_le _
+            per_user := fun _ => Nat.zero_le _ })
   exact ⟨fun x hx => ⟨(hi.conns x hx).1, (hi.conns x hx).2.1⟩, hi.pending, hi.completed, hi.per_user⟩
 
 /-- the limits themselves are never changed by a step -/
